@@ -8,7 +8,6 @@ package gobinlog
 // packets after COM_BINLOG_DUMP), so that replays go through the real driver.
 
 import (
-	"bytes"
 	"context"
 	"fmt"
 	"io"
@@ -151,18 +150,6 @@ func vhLibraryGoroutines() int {
 		}
 	}
 	return n
-}
-
-func vhThreadID() int {
-	buf := make([]byte, 64)
-	buf = buf[:runtime.Stack(buf, false)]
-	// "goroutine 123 ["
-	f := bytes.Fields(buf)
-	id := 0
-	if len(f) >= 2 {
-		fmt.Sscanf(string(f[1]), "%d", &id)
-	}
-	return id
 }
 
 // ---- fake master ----
